@@ -181,6 +181,39 @@ def r05_7_defaults(ctx, rid='R05.7'):
             r.check(ov_ok, 'override: default = user_defaults[name] exactly when name in user_defaults', b.key('override'), b.loc(),
                     'a _yatiml_defaults entry is not always applied (e.g. an explicit None override is ignored), or applied '
                     'under another condition')
+    # form B: {name: (U[name] if name in U else default) for name, default in zip(ARGS[FO:], DEFAULTS)}
+    if fb is None:
+        for dc in [n for n in b.walk() if isinstance(n, ast.DictComp) and len(n.generators) == 1]:
+            g = dc.generators[0]
+            it = b.alpha.rewrite(g.iter)
+            if not (isinstance(it, ast.Call) and isinstance(it.func, ast.Name) and it.func.id == 'zip' and len(it.args) == 2
+                    and isinstance(g.target, ast.Tuple) and len(g.target.elts) == 2 and not g.ifs):
+                continue
+            names, defs = it.args
+            if not (isinstance(names, ast.Subscript) and isinstance(names.slice, ast.Slice) and names.slice.upper is None
+                    and names.slice.step is None and names.slice.lower is not None and norm(names.value).endswith('.args')
+                    and '.defaults' in norm(defs) and 'getfullargspec(' in norm(defs)):
+                continue
+            kname, dname = norm(g.target.elts[0]), norm(g.target.elts[1])
+            if norm(dc.key) != kname:
+                continue
+            fb = norm(names.slice.lower)
+            v = dc.value
+            ov_ok = False
+            if isinstance(v, ast.IfExp):
+                t, pol = G.canon_atom(v.test)
+                yes, no = (v.body, v.orelse) if pol else (v.orelse, v.body)
+                if isinstance(v.test, ast.Compare) and isinstance(yes, ast.Subscript) and norm(yes.slice) == kname and norm(no) == dname:
+                    table = yes.value
+                    srcs = [norm(x) for x in assigned_from(b, norm(table))] if isinstance(table, ast.Name) else [norm(table)]
+                    cls_p = b.fi.params[0]
+                    if t == '%s in %s' % (kname, norm(table)) and any(
+                            s_ == '%s._yatiml_defaults' % cls_p or s_.startswith("getattr(%s, '_yatiml_defaults'" % cls_p) for s_ in srcs):
+                        ov_ok = True
+            ok = True
+            r.check(ov_ok, 'override: default = user_defaults[name] exactly when name in user_defaults', b.key('override'), b.loc(),
+                    'a _yatiml_defaults entry is not always applied (e.g. an explicit None override is ignored), or applied '
+                    'under another condition')
     r.check(fa is not None and fa == fb, 'both compute the index of the first optional parameter as %s' % fa,
             'yatiml.introspection:first-optional', 'yatiml/introspection.py',
             'class_subobjects and defaulted_attributes disagree on which parameters are optional: %s vs %s' % (fa, fb))
